@@ -27,6 +27,8 @@ ASSUMPTIONS = ['Python str restricted to Latin-1 code points; domain texts are p
                '(LocationTuple rejects mixed strands), distinct qualifier keys per feature, multi-line quoted values without blanks, '
                "feature keys not starting with 'origin', no key named like a mapping method (open finding F20)"]
 NO_SHRINK = False
+MODELLED_FUNCS = {'sugar/_io/genbank.py': ['_split_toplevel', '_parse_locs', '_parse_single_loc', 'read_fts_genbank', 'iter_genbank'],
+                  'sugar/core/fts.py': ['Location.__init__', 'LocationTuple.__new__', 'Feature.__init__']}
 
 RESERVED = {'items', 'keys', 'values', 'get', 'update', 'pop', 'copy', 'setdefault', 'clear', 'popitem'}
 BL, BR, BC, USB = 4, 8, 64, 128   # checked against sugar in impl()
@@ -573,27 +575,34 @@ def python_snippet(case):
             "print(len(sugar.read_fts(io.StringIO(text), 'genbank', exclude=ex)))\n") % (text_of(case), tuple(case['excl']))
 
 
-LEVEL_TEXT = ('Machine-checked Coq theorems about the Gallina model of sugar/_io/genbank.py: for every well-formed INSDC location expression '
-              '(n, a..b, <a..b, a..>b, a.b, a^b, complement, join, order, any nesting depth) _parse_locs applied to its text returns '
-              'exactly its meaning as 0-based half-open Locations with the strand flipped under complement and the BEYOND_LEFT/RIGHT, '
-              'UNKNOWN_SINGLE_BETWEEN, BETWEEN_CONSECUTIVE defects (values regenerated from sugar.core.fts.Defect); the nesting-aware '
-              'comma split returns the join/order arguments exactly; wrapping a location over lines is undone by concatenation; the '
-              'LocationTuple of a feature is the meaning ordered along its strand (permutation + sortedness), mixed strands raise. '
-              'The whole reader (records, ids, upper-case residues, qualifiers, seqid, exclude, read = iter_ = read_fts) is proved equal '
-              'to the specification view only on a finite box of 324 files x 7 exclude tuples; in general that clause, and the tie of '
-              'the model to the Python code, is differential testing on rendered files on every run.')
-LEVEL_NOTE = ('Proved: C10_single_loc_spec, C10_loc_sem, C10_split_toplevel, C10_parse_print_loc, C10_feature_locs, C10_sort_locs, '
-              'C10_wrapped_loc (all inputs), C10_read_render_box_partial (finite box of 324 files x 7 exclude tuples only; the general '
-              'read_render statement is proved only for the key + wrapped-location lines of a feature, C10_feature_table_locs_partial '
-              '(step function + flush, any reader state); qualifier lines, header and ORIGIN are box/correspondence-only, claim labelled '
-              'partial). The defect exclude_fts found by this check '
-              '(exclude=("fts",) raised AttributeError / dropped residues) is fixed in /repo (da56cff); exclude tuples with fts are in '
-              'the domain, witness in corpus/C10 and Example C10_witness_exclude_fts. Numbers in locations are the '
-              'digit strings of the file; their value is the Horner value dval (int() of a digit string is proved equal to it). '
-              'Domain restrictions: one strand per feature (LocationTuple rejects mixed strands with ValueError), distinct qualifier '
-              'keys per feature (a dict keeps the last), multi-line quoted values are joined without a separator (right for '
-              '/translation), a FEATURES line is required for ORIGIN to be recognised, keys named like mapping methods excluded (F20). '
-              'Trusted: Coq kernel/vm_compute, tools/gens/flags.py, the correspondence harness incl. the Python renderer (tied to the Coq '
-              'renderer by length+hash per case), CPython str methods, io.StringIO. All theorems closed under the global context; '
-              'the model uses primitive Uint63 only in the text hash of the harness entry point, no theorem depends on it.')
-TECHNIQUE = 'Coq proof (location grammar: parse . print = meaning) + executable Gallina model of the reader tied to sugar by differential testing'
+LEVEL_TEXT = ('Machine-checked Coq theorems about the Gallina model of sugar/_io/genbank.py (with Location/LocationTuple/Feature construction). '
+              'C10_read_render (general, unbounded): for every list of well-formed abstract records and every exclude tuple, the reader applied '
+              'to the rendered GenBank text returns exactly the specification view, and read_fts returns the concatenated features. '
+              'C10_view_spec spells the view out clause by clause (one record per record in order, id = first word of ACCESSION, residues '
+              'upper-cased, one feature per table entry with key as type, qualifiers, seqid); C10_parse_print_loc/C10_single_loc_spec/'
+              'C10_loc_sem/C10_feature_locs/C10_sort_locs give the INSDC location semantics (n, a..b, <, >, a.b, a^b, complement, join, order, '
+              'any nesting; 0-based half-open, strand flip, defects from the regenerated Defect values; ordered along the strand); '
+              'C10_wrapped_loc/C10_split_toplevel cover wrapping and the nesting-aware comma split; C10_exclude_exact says exclude removes '
+              'exactly what it names; C10_read_fts_agrees ties read_fts to read/iter_. The tie of the model to the Python code (and the '
+              'read/iter_/read_fts dispatch in sugar/_io/main.py) is differential testing on rendered and mutated files on every run.')
+LEVEL_NOTE = ('All 13 theorems are closed under the global context. Proved for all inputs: C10_read_render, C10_view_spec, C10_exclude_exact, '
+              'C10_read_fts_agrees, C10_parse_print_loc, C10_single_loc_spec, C10_loc_sem, C10_split_toplevel, C10_feature_locs, C10_sort_locs, '
+              'C10_wrapped_loc, C10_feature_table_locs_partial (an intermediate piece, subsumed), C10_read_render_box_partial (finite box, kept '
+              'as a regression anchor, subsumed). Tested only (correspondence): that sugar.read / iter_ / read_fts behave as the modelled '
+              'iter_genbank / read_fts_genbank (incl. the dispatch and BioBasket/FeatureList wrapping), and that the Python renderer equals the '
+              'Coq renderer (length + hash per case). wf_C10 contains two checked side conditions that are implied by its character classes '
+              'but kept as booleans instead of being proved: no rendered line contains a newline, and ORIGIN line numbers are digit strings of '
+              'at most 9 characters (fewer than 10^9 residues). Numbers in locations and numeric qualifiers are the digit strings of the file; '
+              'their value is the Horner value dval (int() of a digit string is proved equal to it). Domain restrictions: one strand per '
+              'feature (LocationTuple rejects mixed strands with ValueError, proved), distinct qualifier keys per feature (a dict keeps the '
+              'last), multi-line quoted values are joined without a separator (right for /translation), a FEATURES line is required for '
+              'ORIGIN to be recognised, feature keys of at most 15 characters not starting with "origin", keys named like mapping methods '
+              'excluded (F20). The defect exclude_fts found by this check is fixed in /repo (da56cff) and in the domain. '
+              'Statement coverage of the modelled functions in the quick tier: genbank.py _split_toplevel/_parse_locs/_parse_single_loc/'
+              'read_fts_genbank 100%, iter_genbank 124/125 (line 236 "assert False" is unreachable: parse is always one of three states); '
+              'fts.py Location.__init__ 100%, LocationTuple.__new__ 16/26 (lines 165-178 unreachable from the reader: start/stop keyword '
+              'form, locs None, empty list - _parse_locs always returns at least one Location -, non-Location items), Feature.__init__ 6/7 '
+              '(line 283 meta None: the reader always passes meta). Trusted: Coq kernel/vm_compute, tools/gens/flags.py, the harness, '
+              'CPython str methods, io.StringIO. The model uses primitive Uint63 only in the text hash of the harness entry point; no theorem '
+              'depends on it.')
+TECHNIQUE = 'Coq proof (reader . render = view, for all well-formed record lists) + executable Gallina model tied to sugar by differential testing'
